@@ -209,6 +209,8 @@ def fit_scipy(
     :return:
     """
     gtol *= grad_scale
+    # a range given under a tied name belongs to the group's free name
+    bounds_dict = {fcn.vm.bound_name(k): v for k, v in bounds_dict.items()}
     args_name = fcn.vm.trainable_vars
     x0 = []
     bnds = []
